@@ -1,6 +1,6 @@
 """C01 All VM configurations compute the same hash."""
 import astq
-from rules import a64hsem, rvhsem, aes, argon, cgsize, driver, dsinit, jit, rv64, spec, sshash, vmcfg, jitcross, portable
+from rules import a64hsem, aes, argon, cgsize, driver, dsinit, jit, jitcross, portable, rv64, rvhsem, spec, sshash, vmcfg, x86hsem
 
 LEVEL = 'other'
 TECHNIQUE = 'exhaustive flag-to-class dispatch check, frozen-table check of every dataset-address composition site, per-engine v1/v2 gate enumeration, abstract interpretation of the hand-written dataset-read fragments, sibling agreement rules of C04 / C08 / C10 / C12'
@@ -44,3 +44,4 @@ def run(ctx, R):
     rvhsem.rule_hsem(ctx, R, 'rvv')
     portable.rule_int(ctx, R, astq.Facts(ctx, 'K1'))
     driver.rule_bind_excl(ctx, R)
+    x86hsem.rule_hsem(ctx, R)
